@@ -309,9 +309,6 @@ def check(rep, name, ts, tsj, spans, cfg, tp, stats):
         if grid.shape == want.shape:
             stats["grid_maxrel"] = max(stats["grid_maxrel"], float(np.max(np.abs(grid[1:] - want[1:]) / want[1:])))
         rep.case("explicit-grid-is-returned", ok, key=key0, input=inp, observed=grid, expected=want)
-    elif ok:
-        rep.case("timegrid-strictly-increasing-from-zero", grid.size >= tp, key=key0 + "/len", input=inp,
-                 observed=grid.size, expected=f">= {tp}", nontrivial=False)
 
     # ---- fixed / non-fixed partition
     samples = [int(s) for s in ts.samples()]
